@@ -54,6 +54,22 @@ deleted construct is a violated instance:
  I1     a released relation is not listed as incomplete: RelationsDatabase::remove releases the stash item and then
         invalidates the handle; for_each_relation visits every position and calls back only for valid handles;
         for_each_incomplete_relation forwards to it
+ P1     wanted_type(): in every instantiation, for each of node/way/relation the result (all returns reachable for that
+        value, template flags being constants) is true exactly when the second-pass handler that feeds the
+        MembersDatabase<T> with T::itemtype == that value is enabled in the same instantiation.  This is the pairing
+        TNodes<->node, TWays<->way, TRelations<->relation, derived from handle_node/way/relation rather than from names
+ P2     an overriding new_relation() (MultipolygonManager, MultipolygonManagerLegacy) accepts a relation only through an
+        existential test over relation.members() (std::any_of, directly, through a named bool or as the guard of the
+        accepting return) whose member predicate is true only for member types the manager's wanted_type accepts.  The
+        base class does NOT handle "zero wanted members": relation() stores every relation new_relation() accepts, the
+        member counter stays 0, completion is only triggered from add() when a member arrives, so such a relation is
+        never completed and is listed by for_each_incomplete_relation forever -- the any_of in new_relation is the only
+        protection (observation: with the default new_relation() == true the base class has the same behaviour for
+        relations without wanted members; no rule fires on that without a replayed history)
+ "every element" loops (member release in handle_complete_relation, tracking loop in relation(), decrement loop in add(),
+        handle store in add_object, handle invalidation in remove(), counting loop): no iteration may leave the loop
+        without reaching the advance (break / return on a per-element condition); reported under H1 / W1 / A1 / A3 / R4 /
+        R1 respectively
  L1     lost update (all classes of the anchor set: members/relations database, handle, managers, ItemStash and its
         cleanup_helper, CallbackBuffer): a local initialised from a call that returns a non-const lvalue reference (or a
         std container element) and then written must be a reference, unless the written value is read again: otherwise
@@ -95,7 +111,7 @@ follows the callback" is implemented in the weaker inter-procedural form stated 
 handle_complete_relation is redundant with the one every second-pass handler performs after add().
 """
 from ..c11_util import exit_t as exit_t_, is_noreturn as is_noreturn_
-from ..c11_util import (Collector, call_edge_filter, elem_loops, inline_calls, loop_contains, calls, can_follow, counts_from_zero_by_one, every_path_passes, exactly_once, guard_conds, live,
+from ..c11_util import (Collector, eval_bool, loop_escape, call_edge_filter, elem_loops, inline_calls, loop_contains, calls, can_follow, counts_from_zero_by_one, every_path_passes, exactly_once, guard_conds, live,
                         nonzero_guarded, origin, param_root, root_through_refs, subtree_calls, var_edge_filter, zero_test)
 from ..flow import describe_path
 from .. import sorted as S
@@ -116,6 +132,9 @@ ASSUMPTIONS = ['std::sort / std::equal_range / std::count_if behave per the stan
                'derived classes override the CRTP hooks only (complete_relation, new_relation, new_member, before_/after_/not_in_any_)']
 
 KNOWN = []
+
+ESC = ('a later element is never reached: an iteration can leave the loop without advancing (break / return inside the '
+       'body): ')
 
 NS = 'osmium::relations::'
 MDC = NS + 'MembersDatabaseCommon'
@@ -571,6 +590,8 @@ def add_rules(fb, R, M):
             decs = [n for n in calls(fn, RH + '::decrement_members')]
             on_h = [n for n in decs if fn.root_var(n['recv']) == h]
             why = exactly_once(fn, [n['id'] for n in on_h], start=L.start, until=[L.inc]) if on_h else 'no decrement on the element\'s relation handle'
+            if why is None and loop_escape(fn, L) is not None:
+                why = ESC + describe_path(fn, loop_escape(fn, L))
             R.check(why is None and len(on_h) == len(decs), 'A1-add-decrements-each-found-element', q + '#one-decrement-per-element', fn.site,
                     'decrement_members() per found element: %s' % (why or 'a decrement targets another handle'))
             # A2
@@ -633,36 +654,38 @@ def add_rules(fb, R, M):
         per_fn(fb, R, M, fn0, body)
 
 
-def _add_object_rule(fb, R, M, g):
-    key = g.q + '#handle-stored-in-every-element-of-the-range'
-    adds = calls(g, STASH + '::add_item')
-    hv = None
-    for n in g.all_nodes():
-        if n.get('k') == 'decl':
-            for v in n['vars']:
-                if isinstance(v.get('init'), int) and subtree_calls(g, v['init'], STASH + '::add_item'):
-                    hv = ('var', v['d'], v['name'])
-    rp = [param_root(g, i) for i, p in enumerate(g.params) if 'iterator_range' in p['tC']]
-    loops = [L for L in elem_loops(g) if g.root_var(L.seq) in rp]
-    ok = len(adds) == 1 and hv is not None and len(loops) == 1 and g.root_var(adds[0]['args'][0]) == param_root(g, 0)
-    msg = 'add_object must add the object to the stash once and loop over the range parameter'
-    if ok:
-        L = loops[0]
-        stores = []
-        for n in g.all_nodes():
-            tgt = val = None
-            if n.get('k') == 'call' and n.get('op') == '=' and n.get('recv') is not None:
-                tgt, val = n['recv'], (n.get('args') or [None])[0]
-            elif n.get('k') == 'assign':
-                tgt, val = n['lhs'], n['rhs']
-            if tgt is None or val is None:
-                continue
-            if _elem_field_of(g, tgt, M) and g.root_var(tgt) in L.roots and g.root_var(val) == hv:
-                stores.append(n['id'])
-        why = exactly_once(g, stores, start=L.start, until=[L.inc]) if stores else 'no element field is assigned the stash handle'
-        ok = why is None and L.mutable_reference()
-        msg = 'per element of the range: %s%s' % (why or 'stored', '' if L.mutable_reference() else '; the loop variable is a copy, the handle is lost')
-    R.check(ok, 'A3-object-stored-before-callback', key, g.site, msg)
+def _add_object_rule(fb, R, M, g0):
+    key = g0.q + '#handle-stored-in-every-element-of-the-range'
+
+    def body(g, R):
+        adds = calls(g, STASH + '::add_item')
+        rp = [param_root(g, i) for i, p in enumerate(g.params) if 'iterator_range' in p['tC']]
+        loops = [L for L in elem_loops(g) if root_through_refs(g, L.seq) in rp]
+        ok = len(adds) == 1 and len(loops) == 1 and g.root_var(adds[0]['args'][0]) == param_root(g, 0)
+        msg = 'add_object must add the object to the stash once and loop over the range parameter'
+        if ok:
+            L = loops[0]
+            stores = []
+            for n in g.all_nodes():
+                tgt = val = None
+                if n.get('k') == 'call' and n.get('op') == '=' and n.get('recv') is not None:
+                    tgt, val = n['recv'], (n.get('args') or [None])[0]
+                elif n.get('k') == 'assign':
+                    tgt, val = n['lhs'], n['rhs']
+                if tgt is None or val is None:
+                    continue
+                src = origin(g, val)        # the add_item() result, directly, through a named local or a helper parameter
+                if _elem_field_of(g, tgt, M) and g.root_var(tgt) in L.roots and src is not None and src.get('id') == adds[0]['id']:
+                    stores.append(n['id'])
+            why = exactly_once(g, stores, start=L.start, until=[L.inc]) if stores else 'no element field is assigned the stash handle'
+            if why is None and loop_escape(g, L) is not None:
+                why = ESC + describe_path(g, loop_escape(g, L))
+            if why is None and not all(g.elem_dominates(adds[0]['id'], st) for st in stores):
+                why = 'the handle is stored before the object is added to the stash'
+            ok = why is None and L.mutable_reference()
+            msg = 'per element of the range: %s%s' % (why or 'stored', '' if L.mutable_reference() else '; the loop variable is a copy, the handle is lost')
+        R.check(ok, 'A3-object-stored-before-callback', key, g.site, msg)
+    per_fn(fb, R, M, g0, body)
 
 
 # ================================================================================================ remove()
@@ -751,6 +774,8 @@ def _counts_unmarked(fb, g, pred_q):
         return 'an unmarked element is not counted'
     if can_follow(g, [inc], [inc], [L.inc]) is not None:
         return 'an element can be counted twice'
+    if loop_escape(g, L) is not None:
+        return 'the counting loop can be left before the last element'
     return None
 
 
@@ -810,6 +835,9 @@ def released_handle_check(fb, R, fn, rroot, rel_calls, elem_prefix, handle_ctor_
             w = every_path_passes(fn, stores, start=L.start, until=[L.inc])
             if w is not None:
                 why = 'not every element of the range gets the invalid handle (the store is conditional): ' + describe_path(fn, w)
+                continue
+            if loop_escape(fn, L) is not None:
+                why = ESC + describe_path(fn, loop_escape(fn, L))
                 continue
             # the loop is reached on every path from the release to the exit
             pos = fn.positions()
@@ -1102,6 +1130,9 @@ def second_pass_rules(fb, R, M):
                         ok, msg = False, 'a wanted member (ref != 0) is not released: ' + describe_path(fn, w)
                     elif can_follow(fn, [n['id'] for n in mrel], [n['id'] for n in mrel], [L.inc]) is not None:
                         ok, msg = False, 'a member can be released twice in one iteration'
+                    elif loop_escape(fn, L) is not None:
+                        ok, msg = False, 'members after the one that ends the loop are never released: an iteration can leave the member loop ' \
+                            'without advancing (break / return on a per-member condition; a skip must be `continue`): ' + describe_path(fn, loop_escape(fn, L))
             R.check(ok, 'H1-callback-before-release', q + '#every-wanted-member-released', fn.site, msg)
             why = exactly_once(fn, [n['id'] for n in rrel]) if rrel else 'handle.remove() missing: a completed relation stays in the database and is listed as incomplete'
             if why is None and can_follow(fn, [n['id'] for n in rrel], [n['id'] for n in mrel]) is not None:
@@ -1172,6 +1203,8 @@ def first_pass_rules(fb, R, M):
                 why = exactly_once(fn, ids, start=L.start, until=[L.inc])
                 if why is not None:
                     ok, msg = False, 'per member, track() / set_ref(0): %s' % why
+                elif loop_escape(fn, L) is not None:
+                    ok, msg = False, 'later members are neither tracked nor zeroed: ' + ESC + describe_path(fn, loop_escape(fn, L))
             for c in tracks:
                 args = c.get('args', [])
                 rc = origin(fn, c['recv'])
@@ -1890,10 +1923,144 @@ def retrieval_rules(fb, R, M):
                 '%s must return the base lookup of its id parameter, unconditionally' % fn.q)
 
 
+# ================================================================================================ interest predicates
+
+def _item_types(fb):
+    en = fb.enum('osmium::item_type')
+    return {int(e['value']): e['name'] for e in en['enumerators']} if en else {}
+
+
+def _wanted_truth(fb, fn):
+    """{item_type value: True/False/None} of one wanted_type() instantiation, for node/way/relation: every return reachable
+    for that value is evaluated (template flags are constants in the instantiation)."""
+    out = {}
+    pd = fn.params[0]['d']
+    for v in (1, 2, 3):
+        vals = set()
+        for r in _returns_for_value(fn, pd, v):
+            vals.add(eval_bool(fn, r.get('sub'), lambda n, pd=pd, v=v: v if n.get('k') == 'var' and n.get('d') == pd else None) if 'sub' in r else None)
+        out[v] = bool(list(vals)[0]) if len(vals) == 1 and None not in vals else None
+    return out
+
+
+def interest_rules(fb, R, M):
+    """P1: wanted_type() accepts exactly the member types whose second-pass handler is enabled in the same instantiation
+    (the pairing TNodes<->node, TWays<->way, TRelations<->relation derived from handle_X -> MembersDatabase<T> ->
+    T::itemtype).  P2: an overriding new_relation() accepts a relation only under an existential test over its members
+    whose predicate implies the manager's wanted-member predicate."""
+    names = _item_types(fb)
+    wts = [f for f in fb.functions if f.cls == RM and f.has_cfg and f.static and len(f.params) == 1 and S.plain_name(f.params[0]['tC']) == 'osmium::item_type'
+           and S.strip_cvref(f.retC) == 'bool']
+    if not wts or not names:
+        R.broken('%s: no static bool f(item_type) (wanted_type) instantiated / item_type enum missing' % RM)
+        return
+    add_q = set(_one_q(M.add_fns))
+    # enabled handlers per instantiation: {clsT: {item_type value}}
+    enabled = {}
+    handler_of = {}
+    for f in fb.functions:
+        if f.cls != RM or not f.has_cfg or f.is_lambda:
+            continue
+        for q in add_q:
+            for c in calls(f, q):
+                t = S.element_type(c.get('rclsT', '') or '')
+                trec = fb.record(S.plain_name(t)) if t else None
+                it = [s_ for s_ in (trec.statics if trec else []) if s_['name'] == 'itemtype' and 'cv' in s_]
+                if not it:
+                    continue
+                v = int(it[0]['cv'])
+                handler_of[v] = f.q
+                enabled.setdefault(f.clsT, set())
+                if live(f, c['id']):
+                    enabled[f.clsT].add(v)
+    truth_by_flags = {}
+    for fn in wts:
+        if fn.clsT not in enabled:
+            continue
+        truth = _wanted_truth(fb, fn)
+        truth_by_flags[tuple(fn.cls_targs[1:4])] = truth
+        for v in (1, 2, 3):
+            key = '%s#accepts-%s-iff-its-second-pass-handler-is-enabled' % (fn.q, names.get(v, v))
+            if truth[v] is None:
+                R.broken('%s: cannot evaluate the result for item_type::%s' % (fn.full, names.get(v, v)))
+                continue
+            want = v in enabled[fn.clsT]
+            R.check(truth[v] == want, 'P1-wanted-type-matches-enabled-handlers', key, fn.site,
+                    'in %s members of type %s are %s by the first pass but %s %s: %s' % (
+                        fn.clsT, names.get(v, v), 'tracked' if truth[v] else 'ignored', handler_of.get(v, 'their second-pass handler'),
+                        'is enabled' if want else 'is disabled',
+                        'the relation waits forever for members that are never delivered' if truth[v] else 'wanted members are never tracked'))
+    # ---- P2
+    derived = [r for r in fb.derived_from(RMB) if r.q != RM]
+    subjects = [f for f in fb.functions if f.has_cfg and not f.is_lambda and f.name == 'new_relation' and f.cls in {r.q for r in derived}]
+    for fn in subjects:
+        key = fn.q + '#accepts-only-relations-with-a-wanted-member'
+        if [g for g in fb.functions if g.cls == fn.cls and g.name == 'new_member' and g.has_cfg]:
+            R.broken('%s overrides new_member as well: wanted-member predicate not derivable' % fn.cls)
+            continue
+        flags = None
+        for r in fb.records_named(RM):
+            if r.targs and r.targs[0] == fn.clsT:
+                flags = tuple(r.targs[1:4])
+        truth = truth_by_flags.get(flags) if flags else None
+        if truth is None:
+            # no wanted_type body for exactly these flags: any instantiation with the same flag triple will do
+            R.broken('%s: no wanted_type() instantiation for the flags %s of its RelationsManager base' % (fn.clsT, flags))
+            continue
+        ok, msg, site = True, '', fn.site
+        for r in [n for n in fn.all_nodes() if n.get('k') == 'return' and 'sub' in n and live(fn, n['id'])]:
+            if fn.const_value(r['sub']) == 0:
+                continue
+            o = origin(fn, r['sub'])
+            anys = [c for c in ([o] if o is not None else []) if c.get('k') == 'call' and c.get('q') == 'std::any_of']
+            # `if (!any_of(..)) return false; ... return true;` : the accepting return is guarded by the existential test
+            anys += [n for (n, s_) in guard_conds(fn, r['id']) if s_ and n.get('k') == 'call' and n.get('q') == 'std::any_of']
+            if not anys:
+                quant = [x for x in fn.subtree(r['sub']) if fn.nodes[x].get('q') in ('std::any_of', 'std::find_if', 'std::count_if', 'std::all_of', 'std::none_of')]
+                if quant or (o is not None and o.get('k') == 'var'):
+                    R.broken('%s: cannot classify the accepting return `%s`' % (fn.q, fn.expr(r['sub'])[:70]))
+                    continue
+                ok, site = False, fn.loc(r['id'])
+                msg = 'the relation is accepted by `%s`, which does not require a member the manager wants: a relation without wanted members ' \
+                      'is stored with a member count of 0, never completed (completion is triggered by a member arriving) and listed as incomplete forever' % fn.expr(r['sub'])[:60]
+                continue
+            c = anys[0]
+            args = [a for a in c.get('args', []) if a is not None]
+            b, e = fn.sn(args[0]), fn.sn(args[1])
+            whole = b is not None and e is not None and b.get('q', '').rsplit('::', 1)[-1] in ('begin', 'cbegin') and e.get('q', '').rsplit('::', 1)[-1] in ('end', 'cend') \
+                and all((origin(fn, x.get('recv')) or {}).get('q') == 'osmium::Relation::members' and fn.root_var((origin(fn, x.get('recv')) or {}).get('id')) == param_root(fn, 0) for x in (b, e))
+            lam = None
+            pred = origin(fn, args[2]) if len(args) > 2 else None
+            for x in (fn.subtree(pred['id']) if pred is not None else []):
+                if fn.nodes[x].get('k') == 'lambda':
+                    lam = fb.lambda_fn(fn, fn.nodes[x])
+            if not whole or lam is None:
+                R.broken('%s: any_of is not over relation.members() with a lambda predicate' % fn.q)
+                continue
+            lrets = [n for n in lam.all_nodes() if n.get('k') == 'return' and 'sub' in n]
+            for v in (1, 2, 3):
+                def sym(n, v=v, lam=lam):
+                    if n.get('k') == 'call' and n.get('q') == MEMBER + '::type' and lam.root_var(n.get('recv')) == param_root(lam, 0):
+                        return v
+                    return None
+                vals = {eval_bool(lam, lr['sub'], sym) for lr in lrets}
+                if None in vals or not vals:
+                    R.broken('%s: member predicate of any_of depends on more than member.type()' % fn.q)
+                    ok = None
+                    break
+                if any(vals) and not truth[v]:
+                    ok, site = False, lam.site
+                    msg = 'the existential test accepts a member of type %s, which this manager does not track (wanted_type is false for it)' % names.get(v, v)
+            if ok is None:
+                break
+        if ok is not None:
+            R.check(ok, 'P2-new-relation-requires-a-wanted-member', key, site, msg)
+
+
 # ================================================================================================ driver
 
 GROUPS = [sorted_rules, track_rules, add_rules, remove_rules, second_pass_rules, first_pass_rules, consumer_rules, dispatch_rules,
-          listing_rules, counter_rules, lost_update_rules, stash_rules, retrieval_rules]
+          listing_rules, counter_rules, lost_update_rules, stash_rules, retrieval_rules, interest_rules]
 
 
 def all_rules(fb, R):
@@ -1936,6 +2103,8 @@ def run(ctx):
     R.expect('D1-member-database-dispatch', 6)
     R.expect('I1-released-relation-not-listed', 4)
     R.expect('C1-member-counter-ops', 6)
+    R.expect('P1-wanted-type-matches-enabled-handlers', 3)
+    R.expect('P2-new-relation-requires-a-wanted-member', 2)
     R.expect('L1-write-reaches-storage', 2)
     R.expect('I2-stash-index-maintained', 3)
     R.expect('G1-absent-only-when-untracked-or-unstored', 3)
